@@ -30,6 +30,8 @@ const (
 	nScripts
 )
 
+var lifeNames = []string{"data frame inside the T6 window", "Linktest.rsp arriving after T6 (late answer)", "Linktest.req of the peer inside the T6 window", "undefined SType frame inside the T6 window"}
+
 var scriptNames = []string{"silent", "answers-probes", "slow-but-alive", "reply-outstanding", "intermittent", "dark-peer-local-sends"}
 
 type scenario struct {
@@ -42,6 +44,8 @@ type scenario struct {
 	SilentAt time.Duration
 	Dur      time.Duration
 	RspDelay time.Duration
+	Life     int  // slow-but-alive: what the sign of life is (lifeNames)
+	Reselect bool // silent scripts: the peer deselects and re-selects the session on the same connection just before it goes dark
 	Traffic  []time.Duration // app W-bit sends (prompt replies)
 	PeerData []time.Duration // unsolicited primaries from the peer
 }
@@ -72,6 +76,7 @@ type harness struct {
 	seenProbes int
 	sendsDone bool
 	localSends []time.Duration
+	reselAt    time.Duration // arrival of the peer's second Select.req at the library (0 = none)
 }
 
 func genScenario(t *core.Tape) scenario {
@@ -86,6 +91,8 @@ func genScenario(t *core.Tape) scenario {
 	if sc.Script == sIntermittent && sc.N < 2 {
 		sc.N = 2
 	}
+	sc.Life = t.Choose("scn", len(lifeNames))
+	sc.Reselect = t.Choose("scn", 3) == 2
 	sc.SilentAt = time.Duration(500+t.Choose("scn", 2000))*time.Millisecond + 333*time.Microsecond
 	sc.Dur = time.Duration(3000+t.Choose("scn", 3000)) * time.Millisecond
 	sc.RspDelay = time.Duration(t.Choose("scn", int(sc.T6/time.Millisecond)-4)) * time.Millisecond
@@ -158,7 +165,7 @@ func Build(config string) core.BuildFunc {
 func (h *harness) describe() map[string]any {
 	sc := h.sc
 
-	return map[string]any{"script": scriptNames[sc.Script], "active": sc.Active, "equip": sc.Equip, "interval": sc.I.String(), "T6": sc.T6.String(), "threshold": sc.N, "suppression": sc.Supp,
+	return map[string]any{"script": scriptNames[sc.Script], "active": sc.Active, "equip": sc.Equip, "interval": sc.I.String(), "T6": sc.T6.String(), "threshold": sc.N, "suppression": sc.Supp, "life": lifeNames[sc.Life], "reselect": sc.Reselect,
 		"silentAt": sc.SilentAt.String(), "duration": sc.Dur.String(), "rspDelay": sc.RspDelay.String(), "appSends": len(sc.Traffic), "peerData": len(sc.PeerData)}
 }
 
@@ -206,6 +213,22 @@ func (h *harness) monitor() {
 				}
 			})
 		}
+	}
+	if sc.Reselect && (sc.Script == sSilent || sc.Script == sDarkWithLocalSends) {
+		// the peer ends the session and selects it again on the same connection, then goes dark: the
+		// new session must be probed like the first one
+		w.After(sc.SilentAt-sc.I/2, "peer-deselect", func() {
+			if h.c.Alive() {
+				h.c.SendFrame(refhsms.Header{Session: 0xFFFF, SType: refhsms.STDeselectReq, Sys: h.r.P.NextSys()}, nil)
+			}
+		})
+		w.After(sc.SilentAt-sc.I/2+5*time.Millisecond, "peer-reselect", func() {
+			if h.c.Alive() {
+				h.c.SendFrame(refhsms.Header{Session: 0xFFFF, SType: refhsms.STSelectReq, Sys: h.r.P.NextSys()}, nil)
+				h.reselAt = w.Now() + time.Millisecond
+				w.Probe("session_reselected_on_same_connection")
+			}
+		})
 	}
 	switch sc.Script {
 	case sOutstanding:
@@ -267,16 +290,32 @@ func (h *harness) onFrame(c *refhsms.Conn, f refhsms.RxFrame) {
 		}
 		switch sc.Script {
 		case sSilent, sDarkWithLocalSends:
-			if !h.dark() {
+			// (an answer that would leave after the peer has gone dark is not sent at all)
+			if !h.dark() && w.Now()+sc.RspDelay < h.selAt+sc.SilentAt {
 				answer(sc.RspDelay)
 			}
 		case sAnswers, sOutstanding:
 			answer(sc.RspDelay)
 		case sSlowButAlive:
-			// never answers the probe, but shows life half way through its T6 window
-			w.After(sc.T6/2, "life-sign", func() {
-				if c.Alive() {
+			// never answers the probe in time, but shows life: half way through its T6 window, or (late
+			// answer) a quarter of T6 after the timeout
+			at := sc.T6 / 2
+			if sc.Life == 1 {
+				at = sc.T6 + sc.T6/4
+			}
+			w.After(at, "life-sign", func() {
+				if !c.Alive() {
+					return
+				}
+				switch sc.Life {
+				case 0:
 					c.SendFrame(refhsms.DataHeader(0xFFFF, 6, 11, false, h.r.P.NextSys()), refhsms.ASCII("alive"))
+				case 1:
+					c.SendFrame(refhsms.Header{Session: 0xFFFF, SType: refhsms.STLinktestRsp, Sys: f.H.Sys}, nil)
+				case 2:
+					c.SendFrame(refhsms.Header{Session: 0xFFFF, SType: refhsms.STLinktestReq, Sys: h.r.P.NextSys()}, nil)
+				default:
+					c.SendFrame(refhsms.Header{Session: 0xFFFF, SType: 8, Sys: h.r.P.NextSys()}, nil)
 				}
 			})
 		case sIntermittent:
@@ -331,7 +370,8 @@ func (h *harness) final(reason string) {
 	eps := time.Millisecond
 	var unanswered []*probe // the trailing run of unanswered probes
 	for _, p := range h.probes {
-		if p.answered {
+		if p.answered || (h.reselAt > 0 && p.at < h.reselAt) {
+			// (a probe of the session the peer ended belongs to a linktest the library has cancelled)
 			unanswered = unanswered[:0]
 		} else {
 			unanswered = append(unanswered, p)
@@ -401,6 +441,13 @@ func (h *harness) final(reason string) {
 
 				return
 			}
+		} else if h.reselAt > 0 && p.at >= h.reselAt && (i == 0 || h.probes[i-1].at < h.reselAt) {
+			// first probe of the re-selected session: one interval after the new select
+			if d := p.at - (h.reselAt + sc.I); d < -eps || d > eps {
+				w.Fail("PROBE_TIME", "suppression off: the first probe of the re-selected session was written at %v; the session was re-selected at %v and the interval is %v%s", p.at, h.reselAt, sc.I, ctx)
+
+				return
+			}
 		} else if i > 0 {
 			prev := h.probes[i-1]
 			done := prev.at + sc.T6
@@ -446,14 +493,21 @@ func (h *harness) final(reason string) {
 		}
 		w.Probe("answering_peer_kept")
 	case sSlowButAlive:
-		if sc.Supp {
-			if len(h.probes) < sc.N+1 {
+		if sc.Supp && sc.Life == 1 && sc.N == 1 {
+			// the late answer comes after the first timeout, and one timeout is the threshold
+			mustDropAfterN("threshold 1: the first probe timed out before the late answer arrived")
+		} else if sc.Supp {
+			if closed < 0 && len(h.probes) < sc.N+1 {
 				w.Fail("HARNESS", "too few probes (%d) to exercise the threshold %d%s", len(h.probes), sc.N, ctx)
 
 				return
 			}
-			if mustStayUp("every probe timed out but a frame arrived inside each probe's T6 window") {
-				w.Probe("slow_but_alive_peer_kept")
+			why := "every probe timed out but a frame arrived inside each probe's T6 window"
+			if sc.Life == 1 {
+				why = "every probe timed out but its answer arrived late, before the next probe: life between consecutive timeouts"
+			}
+			if mustStayUp(why + " (" + lifeNames[sc.Life] + ")") {
+				w.Probe("slow_but_alive_peer_kept_life" + fmt.Sprint(sc.Life))
 			}
 		} else {
 			mustDropAfterN("suppression off: every timeout counts, whatever else is received")
